@@ -133,6 +133,10 @@ def op_strategies(name_pool=None):
                        direct=st.booleans(), how=HOW)
     S["append"] = fixed(op="append", da=IDX, axis=IDX, n=st.integers(0, 3), seed=st.integers(0, 9), how=HOW)
     S["resize"] = fixed(op="resize", da=IDX, shape=st.lists(st.integers(0, 5), min_size=1, max_size=3), how=HOW)
+    S["frame_units"] = fixed(op="frame_units", t=IDX, how=HOW,
+                             units=st.one_of(st.none(), st.lists(st.sampled_from(["mV", "s", "Hz"]), min_size=1, max_size=3)))
+    S["frame_add_col"] = fixed(op="frame_add_col", t=IDX, name=st.sampled_from(["d", "e", "f", "ü2"]), seed=st.integers(0, 9), how=HOW)
+    S["frame_add_rows"] = fixed(op="frame_add_rows", t=IDX, n=st.integers(1, 3), seed=st.integers(0, 9), how=HOW)
     S["prop_set"] = fixed(op="prop_set", t=IDX, vals=prop_vals(), how=HOW)
     S["prop_ext"] = fixed(op="prop_ext", t=IDX, vals=prop_vals(), how=HOW)
     S["prop_clear"] = fixed(op="prop_clear", t=IDX, via=st.sampled_from(["none", "empty", "delete"]), how=HOW)
@@ -160,6 +164,7 @@ CREATE = ["mk_block", "mk_section", "mk_prop", "mk_prop_dtype", "mk_group", "mk_
 SETTERS = ["set_type", "set_definition", "set_array", "set_tag", "set_section", "set_prop", "set_feature", "set_dim"]
 LINKS = ["link", "link", "unlink", "set_meta", "del_meta", "set_pos", "clear_ext", "set_featdata", "dim_link", "sec_link"]
 DATA = ["write", "append", "resize", "prop_set", "prop_ext", "prop_clear"]
+FRAME = ["frame_units", "frame_add_col", "frame_add_rows"]
 DELETE = ["del", "del_dims"]
 
 
@@ -201,10 +206,20 @@ def _multi_append(S):
     return st.builds(build, S["append"], st.integers(1, 3), st.integers(1, 2), IDX)
 
 
+def _frame_grow(S):
+    """macro: a frame gets units, then (possibly after other ops of the same frame) one more column and more rows"""
+    def build(u, c, r, order):
+        u = dict(u, units=u["units"] or ["mV"])
+        c = dict(c, t=u["t"])
+        r = dict(r, t=u["t"])
+        return [u, c, r] if order else [u, r, c, dict(u, how=c["how"])]
+    return st.builds(build, S["frame_units"], S["frame_add_col"], S["frame_add_rows"], st.booleans())
+
+
 def program(enabled, min_size=0, max_size=30, name_pool=None, weights=None):
     """list of ops drawn from the enabled op names (a name may be repeated to weight it)"""
     S = op_strategies(name_pool)
-    MACROS = {"overwrite": _overwrite, "relink": _relink, "multi_append": _multi_append}
+    MACROS = {"overwrite": _overwrite, "relink": _relink, "multi_append": _multi_append, "frame_grow": _frame_grow}
     alts = [S[n].map(lambda o: [o]) for n in enabled if n not in MACROS]
     for mname, mk in MACROS.items():
         if mname in enabled:
